@@ -9,6 +9,7 @@ CLAIMED = {
     "C01": ("4 (C01)", "shared SurfaceMesh queried by interleaved clients, cache drops, reordered + fresh-instance re-runs; oracle RefSurface (brute force over the face list)"),
     "C02": ("4 (C02)", "build / re-wrap / re-build / observe histories of one raw spec through every constructor path and container flavour, completion switches flipped by a co-resident client; oracle RefNormalise"),
     "C03": ("4 (C03)", "shared VolumeMesh queried by interleaved clients incl. boundary extraction, cache drops, reordered + fresh-instance re-runs; oracle RefVolume (brute force over the cell list)"),
+    "C04": ("4 (C04)", "save / load / cross-read / cross-write histories over a simulated file system (SimFS) across 7 formats, interleaved attribute-adding queries, export switches flipped, benign lexical perturbations of independently written files; oracle: snapshot at save time + independent reference codecs"),
     "C05": ("4 (C05)", "stateful histories on containers with twin sparse/dense attributes, rejected operations injected anywhere; oracle RefAttr + sparse-vs-dense lock-step"),
     "C06": ("4 (C06)", "pool of meshes from every producer, clients interleaving copy/merge/transform/edit calls, every mesh compared with an independent float64 model after every call"),
     "C13": ("4 (C13)", "editing-block histories (cold or warm caches, open block, seeded operation sequence, close, observers on result and passed-in object, second block); oracles: documented counts, topology, area/volume, vertex placement, RefSurface/RefVolume on the result"),
